@@ -23,6 +23,8 @@ func init() {
 func runC06(r *Run, p *Prog) {
 	// Q11: the token character sets decide which names are well-formed
 	siblingRules(r, p, "C05", []string{"K8"}, "Q11")
+	// Q12: an unknown lower-case word is rejected only if every built-in type node is built under the fact `keyword == its name`
+	siblingRules(r, p, "C05", []string{"K1"}, "Q12")
 	m, why := buildIDLModel(p)
 	if m == nil {
 		r.Unresolved("Q1", why)
@@ -579,6 +581,60 @@ func runC06(r *Run, p *Prog) {
 					r.Ob("Q9", shortName(structReader), "the field loop continues only on ','", p.InstrPos(b.Instrs[len(b.Instrs)-1]), ok, "another separator is accepted between fields")
 				}
 			}
+		}
+		// after a ',' another field follows: no success return of the list is reachable from the edge that consumed the
+		// separator without a field name having been read (and found non-empty) in between - `(a: int,)` is not a list
+		nComma := 0
+		for _, b := range structReader.Blocks {
+			for _, s := range b.Succs {
+				if _, isComma := m.nextEq(T.edgeFactsOn(b, s), ','); !isComma || len(s.Instrs) == 0 {
+					continue
+				}
+				nComma++
+				ok, w := mustCross(T, structReader, s.Instrs[0], func(in ssa.Instruction) bool {
+					ret, isRet := in.(*ssa.Return)
+					if !isRet || len(ret.Results) == 0 {
+						return false
+					}
+					v := ret.Results[0]
+					if v == ssa.Value(structNode) {
+						return true
+					}
+					if ph, isPhi := v.(*ssa.Phi); isPhi {
+						for _, e := range ph.Edges {
+							if e == ssa.Value(structNode) {
+								return true
+							}
+						}
+					}
+					return false
+				}, nil, func(fs []Fact) bool {
+					for _, f := range fs {
+						if f.Op != "NE" {
+							continue
+						}
+						for _, pr := range [][2]string{{f.A, f.B}, {f.B, f.A}} {
+							if pr[0] != `const:""` {
+								continue
+							}
+							for tf := range m.tokens {
+								if strings.HasPrefix(pr[1], "call:"+funcFullName(tf)+"(") {
+									return true
+								}
+							}
+						}
+					}
+					return false
+				})
+				if !ok && s.Instrs[0] == ssa.Instruction(nil) {
+					continue
+				}
+				r.Ob("Q9", shortName(structReader), "after ',' the list ends only after another field was read", p.InstrPos(b.Instrs[len(b.Instrs)-1]), ok,
+					"after a ',' the field list can be closed without another field: a dangling comma is accepted", witnessPos(p, w)...)
+			}
+		}
+		if nComma == 0 {
+			r.Unresolved("Q9", "the edge on which the field list consumes ','")
 		}
 		// in/out types of a method are read by a type reader and must be non-nil
 		var methodNodes []*ssa.Alloc
